@@ -22,6 +22,7 @@ type Spec struct {
 	Name                string
 	BIP34, BIP65, BIP66 int32
 	CSV                 int32 // activation height (1 = always, never = off)
+	Segwit              int32 // segwit + taproot activation height (0 = 1 = always)
 	Maturity            int32
 	Halving             int32
 	Spacing             int64 // seconds between lab blocks
@@ -48,6 +49,10 @@ func (s Spec) Impl() *chaincfg.Params {
 	} else {
 		p.Deployments[chaincfg.DeploymentCSV].AlwaysActiveHeight = uint32(s.CSV)
 	}
+	if s.Segwit > 1 {
+		p.Deployments[chaincfg.DeploymentSegwit].AlwaysActiveHeight = uint32(s.Segwit)
+		p.Deployments[chaincfg.DeploymentTaproot].AlwaysActiveHeight = uint32(s.Segwit)
+	}
 	if s.retarget != nil {
 		p.PoWNoRetargeting = false
 		p.ReduceMinDifficulty = false
@@ -61,6 +66,13 @@ func (s Spec) Impl() *chaincfg.Params {
 	return p
 }
 
+func max32(a, b int32) int32 {
+	if a > b {
+		return a
+	}
+	return b
+}
+
 var regtestPowLimit = new(big.Int).Sub(new(big.Int).Lsh(big.NewInt(1), 255), big.NewInt(1))
 
 const regtestPowLimitBits = 0x207fffff
@@ -72,8 +84,8 @@ func (s Spec) Ref() *refblock.Params {
 		BIP65Height:     s.BIP65,
 		BIP66Height:     s.BIP66,
 		CSVHeight:       s.CSV,
-		SegwitHeight:    1,
-		TaprootHeight:   1,
+		SegwitHeight:    max32(1, s.Segwit),
+		TaprootHeight:   max32(1, s.Segwit),
 		Maturity:        s.Maturity,
 		HalvingInterval: s.Halving,
 		BIP16Time:       1333238400,
@@ -324,6 +336,7 @@ func (w *World) cbOut(h int32) out {
 var (
 	specRegtest = Spec{Name: "regtest", BIP34: 1, BIP65: 1, BIP66: 1, CSV: 1, Maturity: 2, Halving: 5, Spacing: 512}
 	specStaged  = Spec{Name: "staged", BIP34: 4, BIP66: 6, BIP65: 8, CSV: 1, Maturity: 2, Halving: 5, Spacing: 512}
+	specSegLate = Spec{Name: "seglate", BIP34: 1, BIP65: 1, BIP66: 1, CSV: 1, Segwit: 8, Maturity: 2, Halving: 5, Spacing: 512}
 	specCsvOff  = Spec{Name: "csvoff", BIP34: 1, BIP65: 1, BIP66: 1, CSV: never, Maturity: 2, Halving: 5, Spacing: 512}
 	specBip30   = Spec{Name: "bip30", BIP34: never, BIP65: never, BIP66: never, CSV: 1, Maturity: 2, Halving: 150, Spacing: 512}
 	specRetgt   = Spec{Name: "retarget", BIP34: 1, BIP65: 1, BIP66: 1, CSV: 1, Maturity: 2, Halving: 5, Spacing: 512,
